@@ -4,6 +4,7 @@ Property theorems only; helper lemmas live in Comrak/Lemmas/Escape.lean.
 All statements are for every byte string (no length bound).
 -/
 import Comrak.Lemmas.Escape
+import Comrak.Lemmas.EscapeTag
 namespace Comrak.C19
 open Comrak Bytes
 
@@ -92,5 +93,81 @@ example : escape [0x3C, 0x61, 0x26, 0x22] = entLt ++ [0x61] ++ entAmp ++ entQuot
 example : (0x25 : UInt8) ∉ ([0x01, 0x27, 0x26, 0xC3] : Bytes) := by decide
 example : escapeHref [0x01, 0x27, 0x26, 0xC3] =
     [0x25,0x30,0x31] ++ entApos ++ entAmp ++ [0x25,0x43,0x33] := by decide
+
+/-! ## The tag writer yields one syntactically complete start tag
+
+`parseStartTag` (Escape.lean) accepts exactly `<` name (` ` name `="` value `"`)* `>` with nothing before or
+after, every value free of raw `<`, `>`, `"` and stray `&` (it is run through the strict decoder).  Its fuel
+(`length + 1`) always suffices here: one unit per attribute plus one. -/
+
+/-- **C19 (tag writer).** For a valid element name and valid attribute names - values are arbitrary byte
+    strings - `write_opening_tag` writes exactly one complete start tag, and reading it back returns the element
+    name and every attribute value exactly. -/
+theorem openTag_complete (tag : Bytes) (attrs : List (Bytes × Bytes)) (ht : validName tag = true)
+    (hk : ∀ kv ∈ attrs, validName kv.1 = true) :
+    parseStartTag (openTag tag attrs) = some (tag, attrs) :=
+  parseStartTag_openTag tag attrs ht hk
+
+/-- Hence the writer is injective on such arguments: two calls writing the same bytes had the same arguments. -/
+theorem openTag_injective (t1 t2 : Bytes) (a1 a2 : List (Bytes × Bytes))
+    (h1 : validName t1 = true) (h2 : validName t2 = true)
+    (k1 : ∀ kv ∈ a1, validName kv.1 = true) (k2 : ∀ kv ∈ a2, validName kv.1 = true)
+    (h : openTag t1 a1 = openTag t2 a2) : t1 = t2 ∧ a1 = a2 := by
+  have e1 := openTag_complete t1 a1 h1 k1
+  rw [h, openTag_complete t2 a2 h2 k2] at e1
+  have := Option.some.inj e1
+  exact ⟨(Prod.mk.inj this).1.symm, (Prod.mk.inj this).2.symm⟩
+
+/-- The name hypothesis is needed: names are written raw (the caller's obligation in comrak), so a name holding
+    `>` ends the tag early and the result is not one start tag. -/
+theorem openTag_raw_name_counterexample :
+    parseStartTag (openTag [0x61, 0x3E, 0x62] []) = none ∧ parseStartTag (openTag [0x61] [([0x3E], [])]) = none := by
+  decide
+
+/-! ## Href escaper: no information is lost up to percent-decoding -/
+
+/-- Reading `&amp;` / `&#x27;` back as `&` / `'` turns the href escaper's output into the plain percent-encoding
+    of the input (safe bytes, `&`, `'` as they are, every other byte as `%XX`). -/
+theorem entityDecode_escapeHref_eq_pctEnc (a : Bytes) : entityDecode (escapeHref a) = pctEnc a :=
+  entityDecode_escapeHref a
+
+/-- **C19 (href escaper, the round trip that does hold for every byte string).** Entity-decoding and then
+    percent-decoding the output gives the percent-decoding of the input: what a browser requests for the
+    escaped href is what it would request for the original one.  (The literal round trip is refuted by
+    `escapeHref_not_injective`; the lenient `entityDecode` is harmless because every `&` of the output starts
+    an entity the escaper wrote itself.) -/
+theorem escapeHref_decode_equiv (a : Bytes) : pctDecode (entityDecode (escapeHref a)) = pctDecode a := by
+  rw [entityDecode_escapeHref]; exact pctDecode_pctEnc a
+
+/-- Two inputs with the same escaped form are equal up to percent-decoding. -/
+theorem escapeHref_injective_mod_pct (a b : Bytes) (h : escapeHref a = escapeHref b) : pctDecode a = pctDecode b := by
+  rw [← escapeHref_decode_equiv a, h, escapeHref_decode_equiv b]
+
+/-- The order of the two decoders matters (it is the order a browser uses: attribute value first, URL second):
+    swapped, `%26amp;` percent-decodes to `&amp;`, which then entity-decodes to `&`, while the input percent-decodes
+    to `&amp;`. -/
+theorem escapeHref_decode_order_counterexample :
+    entityDecode (pctDecode (escapeHref [0x25,0x32,0x36,0x61,0x6D,0x70,0x3B])) ≠
+      pctDecode [0x25,0x32,0x36,0x61,0x6D,0x70,0x3B] := by
+  decide
+
+/-! Output length bounds (`(escape b).length ≤ 6 * b.length`, `(escapeHref b).length ≤ 6 * b.length`) are
+    `Comrak.C06.escape_len` / `escapeHref_len` in Props/C06.lean. -/
+
+/-! Non-vacuity: `<code class="x&quot; y" data-n="&lt;1&gt;">` - values holding `"`, space, `<`, `>`. -/
+example : validName [0x63,0x6F,0x64,0x65] = true ∧ validName [0x63,0x6C,0x61,0x73,0x73] = true ∧
+    validName [0x64,0x61,0x74,0x61,0x2D,0x6E] = true := by decide
+example : openTag [0x63,0x6F,0x64,0x65] [([0x63,0x6C,0x61,0x73,0x73], [0x78,0x22,0x20,0x79]),
+                                          ([0x64,0x61,0x74,0x61,0x2D,0x6E], [0x3C,0x31,0x3E])] =
+    [0x3C,0x63,0x6F,0x64,0x65,0x20,0x63,0x6C,0x61,0x73,0x73,0x3D,0x22,0x78] ++ entQuot ++ [0x20,0x79,0x22,
+     0x20,0x64,0x61,0x74,0x61,0x2D,0x6E,0x3D,0x22] ++ entLt ++ [0x31] ++ entGt ++ [0x22,0x3E] := by decide
+example : parseStartTag (openTag [0x63,0x6F,0x64,0x65] [([0x63,0x6C,0x61,0x73,0x73], [0x78,0x22,0x20,0x79]),
+                                                         ([0x64,0x61,0x74,0x61,0x2D,0x6E], [0x3C,0x31,0x3E])]) =
+    some ([0x63,0x6F,0x64,0x65], [([0x63,0x6C,0x61,0x73,0x73], [0x78,0x22,0x20,0x79]),
+                                  ([0x64,0x61,0x74,0x61,0x2D,0x6E], [0x3C,0x31,0x3E])]) :=
+  openTag_complete _ _ (by decide) (by decide)
+-- `%41` and `A` and a raw control byte next to `&`, `'`: the escaped form decodes to the same bytes as the input.
+example : pctDecode (entityDecode (escapeHref [0x25,0x34,0x31,0x26,0x27,0x01,0x25])) = [0x41,0x26,0x27,0x01,0x25] ∧
+    pctDecode [0x25,0x34,0x31,0x26,0x27,0x01,0x25] = [0x41,0x26,0x27,0x01,0x25] := by decide
 
 end Comrak.C19
